@@ -592,7 +592,18 @@ pub fn gen_case(seed: u64, hist: u64) -> SchedCase {
         h.cfg.max_size = None;
     }
     let sched = sched::gen_sched(&mut r, h.steps.len());
-    let faults = if r.chance(1, 5) { vec![FaultSpec { role: Role::Worker, kind: Sk::Sync, nth: r.below(20) as u32, action: "eio".into() }] } else { vec![] };
+    // fault + crash: one failing fdatasync, two consecutive ones, or a short write, in 2 of 5 histories
+    let w = r.below(100);
+    let faults = if w < 60 {
+        vec![]
+    } else if w < 78 {
+        vec![FaultSpec { role: Role::Worker, kind: Sk::Sync, nth: r.below(24) as u32, action: "eio".into() }]
+    } else if w < 92 {
+        let n = r.below(20) as u32;
+        vec![FaultSpec { role: Role::Worker, kind: Sk::Sync, nth: n, action: "eio".into() }, FaultSpec { role: Role::Worker, kind: Sk::Sync, nth: n + 1, action: "eio".into() }]
+    } else {
+        vec![FaultSpec { role: Role::Worker, kind: Sk::Write, nth: r.below(12) as u32, action: format!("short:{}", r.range(1, 25)) }]
+    };
     SchedCase { hist: h, sched, faults, reader_steps: vec![], gate_acks: r.chance(1, 2) }
 }
 
